@@ -576,7 +576,7 @@ func genScript(t *rapid.T) []int {
 var _ = pbt.Register(pbt.Spec[Case]{
 	Property: "C02", Name: "limits-sequential",
 	Rule:  "object graphs of 1-7 objects (structs, pointer lists, struct lists incl. zero-sized elements x100/1000 and, in 3 of 7 cases, list pointers that declare fewer words than their tag word describes, text/void/bit leaves) with arbitrary edges (back edges = cycles, shared targets), encoded in 1-3 segments with near/far/double-far edges, optionally with hostile word mutations; TraverseLimit in {8..4096, default}, DepthLimit in {1..9,12,63,64,default}; walk = DFS (step cap) or 1-3 random path scripts mixing Struct.Ptr, List.Struct(i)+Ptr, PointerList.At (also on struct lists). Oracle: along every path the number of successful pointer dereferences never exceeds D; the sum of sizes of all objects handed out (struct bytes; list n*elem, zero-sized element = 8, bit list ceil(n/8)) never exceeds T; with the VerifReadLimit hook the budget starts at T, never increases and drops by at least the size handed out. Non-trivial: graph has a cycle/shared node, a dereference succeeded at level >= 2 and a limit fired.",
-	Quick: 25000, Thorough: 200000,
+	Quick: 25000, Thorough: 100000,
 	Gen: func(t *rapid.T) Case {
 		c := Case{Graph: genGraph(t, false), Plan: gen.Plan(t, 3)}
 		genLimits(t, &c)
@@ -597,7 +597,7 @@ var _ = pbt.Register(pbt.Spec[Case]{
 var _ = pbt.Register(pbt.Spec[Case]{
 	Property: "C02", Name: "limits-concurrent",
 	Rule:  "same graphs; 2-8 goroutines released together walk the same Message (4 random-path walks each) with a small TraverseLimit; oracle after the join: the sum over all readers of object sizes handed out is <= T and the remaining budget accounts for it; the package is built with the race detector, a reported race kills the run (violation). Non-trivial as above.",
-	Quick: 4000, Thorough: 40000,
+	Quick: 4000, Thorough: 20000,
 	Gen: func(t *rapid.T) Case {
 		c := Case{Graph: genGraph(t, false), Plan: gen.Plan(t, 3), Conc: true}
 		c.T = rapid.SampledFrom([]uint64{8, 16, 24, 32, 64, 100, 256, 1024}).Draw(t, "T")
@@ -710,7 +710,7 @@ func runConsumers(c consCase) (pbt.Result, error) {
 var _ = pbt.Register(pbt.Spec[consCase]{
 	Property: "C02", Name: "consumers-terminate",
 	Rule:  "Z-shaped cyclic graphs (every struct is an aircraftlib.Z whose discriminant matches what its pointer targets: zz / zvec / zvecvec / text / boolvec, so text and pogs follow the cycles) with TraverseLimit in {64..64Ki, default} and DepthLimit in {1..64}; oracle: Equal, Canonicalize, SetRoot, text.Marshal and pogs.Extract each terminate (result or error) without panic or process death (a stack not bounded by D overflows the 256 MiB cap and is journalled) and never raise the budget. Non-trivial: cyclic/shared graph on which at least one consumer stopped with an error.",
-	Quick: 2500, Thorough: 25000,
+	Quick: 2500, Thorough: 12000,
 	Gen: func(t *rapid.T) consCase {
 		c := consCase{Graph: genGraph(t, true), Plan: gen.Plan(t, 3)}
 		c.T = rapid.SampledFrom([]uint64{64, 256, 1024, 4096, 64 << 10, 0}).Draw(t, "T")
